@@ -297,12 +297,13 @@ FDel(a, f) ==
 \* probe of the final manifest name in the naming scheme the table does NOT use
 VHeadAlt(a, f) ==
   LET r == ac[a] IN
-  /\ r.pc \in {"v_alt", "v_alt2", "v_alt_onb"} /\ f \in {"ok", "fail"}
+  /\ r.pc \in {"v_alt", "v_alt2", "v_alt_onb", "v_alt_onb2"} /\ f \in {"ok", "fail"}
   /\ Call(a, f, "head", "altfinal", r.rvq, -1, IF f = "ok" THEN "notfound" ELSE "fail")
   /\ Same(<<obj, ext, lease, owner, okRet>>)
   /\ SetA(a, IF r.pc = "v_alt2" /\ r.cont2 = "restore" THEN (IF f = "fail" THEN Done(r, "error") ELSE ResolveErr(a, r))
              ELSE IF r.pc = "v_alt2" THEN RetryOr(r, IF f = "fail" THEN Done(r, "error") ELSE ResolveErr(a, r))
              ELSE IF f = "fail" THEN Done(r, "error")
+             ELSE IF r.pc = "v_alt_onb2" THEN ResolveErr(a, r)
              ELSE IF r.pc = "v_alt" THEN [r EXCEPT !.pc = "v_final"]
              ELSE [r EXCEPT !.pc = "v_final_onb"])
 
@@ -330,7 +331,7 @@ VExtGet(a, f) ==
           IF f = "fail" THEN "fail" ELSE IF found THEN "ok" ELSE "notfound")
   /\ Same(<<obj, ext, lease, owner, okRet>>)
   /\ SetA(a, IF f = "fail" THEN Done(r, "error")
-             ELSE IF ~found THEN [r EXCEPT !.pc = IF cfg.v2 THEN "v_final_onb" ELSE "v_alt_onb"]
+             ELSE IF ~found THEN [r EXCEPT !.pc = IF cfg.v2 THEN "v_final_onb0" ELSE "v_alt_onb"]
              ELSE IF IsFinal(p) THEN [r EXCEPT !.pc = "v_final"]
              ELSE [r EXCEPT !.fin = <<r.rvq, p[3]>>, !.cont = "resolve", !.pc = "v_headstaging"])
 
@@ -338,11 +339,15 @@ VExtGet(a, f) ==
 VHeadFinalOnboard(a, f) ==
   LET r == ac[a]
       out == HeadOut(FinalP(r.rvq), f) IN
-  /\ r.pc = "v_final_onb" /\ f \in {"ok", "fail"}
+  \* V2 naming: default_resolve_version first HEADs the V2 name itself ("v_final_onb0": found => the handler's
+  \* own HEAD of the same path follows; NotFound => the handler HEADs the V1 name, "v_alt_onb2")
+  /\ r.pc \in {"v_final_onb0", "v_final_onb"} /\ f \in {"ok", "fail"}
   /\ Call(a, f, "head", "final", r.rvq, -1, out)
   /\ Same(<<obj, ext, lease, owner, okRet>>)
-  /\ SetA(a, IF out = "ok" THEN [r EXCEPT !.pc = "v_extput"]
-             ELSE IF out = "fail" THEN Done(r, "error") ELSE ResolveErr(a, r))
+  /\ SetA(a, IF out = "fail" THEN Done(r, "error")
+             ELSE IF r.pc = "v_final_onb0"
+                  THEN [r EXCEPT !.pc = IF out = "ok" THEN "v_final_onb" ELSE "v_alt_onb2"]
+             ELSE IF out = "ok" THEN [r EXCEPT !.pc = "v_extput"] ELSE ResolveErr(a, r))
 
 VExtPutOnboard(a, f) ==     \* best effort: every outcome is ignored
   LET r == ac[a]
